@@ -553,7 +553,9 @@ theorem LruAll_step (cfg : Cfg) (s : St) (op : Op) (he : Excl s) (h : LruAll cfg
   | removeIdle c =>
     simp only [step]; split; exact h
     next k hk =>
-    exact LruAll_removeIdleLocked cfg s c (by rw [hk]; simp) he h
+    split
+    · exact LruAll_removeIdleLocked cfg s c (by rw [hk]; simp) he h
+    · exact h
   | idleTimeout c =>
     simp only [step]; split; exact h
     next hin =>
